@@ -1159,6 +1159,7 @@ def _folds(ctx, table):
 
     def body(_):
         raw = [None]
+        gen = [None]
         for d, (K, df, dret) in table.items():
             recs = attempt(C2(prog, ctx.typer), K, d, df, dret)
             if any(r.bad() for r in recs) and getattr(prog, 'normalisation_log', None):
@@ -1174,6 +1175,26 @@ def _folds(ctx, table):
                         raw[0] = False
                 if raw[0]:
                     recs2 = attempt(raw[0], K, d, df, dret)
+                    if not any(r.bad() for r in recs2):
+                        recs = recs2
+            if any(r.bad() for r in recs) and not any(r.refuted() for r in recs):
+                # operands consumed through a generator function (`for u in _known_units(self.ops, date):`): read the
+                # tree with the generator's own loop written in place of the consumer loop (c17_util.inline_stream_generators)
+                if gen[0] is None:
+                    gen[0] = False
+                    from sa.model import Program
+                    from sa.types import Typer
+                    try:
+                        over = {m_.rel: m_.src for m_ in prog.modules.values()}
+                        new = {rel: U.inline_stream_generators(text) for rel, text in over.items() if rel.endswith('calendar.py')}
+                        if any(v is not None for v in new.values()):
+                            over.update({k: v for k, v in new.items() if v is not None})
+                            gp = Program(prog.repo, overrides=over)
+                            gen[0] = C2(gp, Typer(gp))
+                    except Exception:
+                        gen[0] = False
+                if gen[0]:
+                    recs2 = attempt(gen[0], K, d, df, dret)
                     if not any(r.bad() for r in recs2):
                         recs = recs2
             for r, ob in zip(recs, (o, orr, osb)):
@@ -2753,12 +2774,41 @@ class _MemberEv(Ev):
         return None
 
 
+def _eafp_lookup(stmts, F):
+    """`try: return F[k] / except KeyError: <handler>` (also `x = F[k]` with an else part; KeyError / LookupError, no
+    finally) read as `if k in F: <try body + else> else: <handler>`: the only statement of the try body is the
+    subscript of the table itself, whose KeyError says exactly "k is not a key".  Anything else stays a Try."""
+    out = []
+    for st in stmts:
+        if isinstance(st, ast.If):
+            st2 = ast.If(test=st.test, body=_eafp_lookup(st.body, F), orelse=_eafp_lookup(st.orelse, F))
+            out.append(ast.copy_location(st2, st))
+            continue
+        if isinstance(st, ast.Try) and not st.finalbody and len(st.handlers) == 1 and len(st.body) == 1 and \
+                isinstance(st.handlers[0].type, ast.Name) and st.handlers[0].type.id in ('KeyError', 'LookupError'):
+            b = st.body[0]
+            v = b.value if isinstance(b, (ast.Return, ast.Assign)) else None
+            if isinstance(b, ast.Assign) and not (len(b.targets) == 1 and isinstance(b.targets[0], ast.Name)):
+                v = None
+            if isinstance(v, ast.Subscript) and same(v.value, F) and not any(
+                    isinstance(n, ast.Subscript) or (isinstance(n, ast.Call) and U.midnight_arg(n) is None
+                                                     and not (isinstance(n.func, ast.Name) and n.func.id == '_day_start'))
+                    for n in ast.walk(v.slice)):
+                test = ast.Compare(left=v.slice, ops=[ast.In()], comparators=[v.value])
+                st2 = ast.If(test=test, body=[b] + list(st.orelse), orelse=list(st.handlers[0].body))
+                out.append(ast.fix_missing_locations(ast.copy_location(st2, st)))
+                continue
+        out.append(st)
+    return out
+
+
 def _direct(ctx, o, field):
     prog = ctx.prog
     f = prog.func('calendar.DirectCalendar.get_available_units')
     date = f.params[1]
     ex = Expander(prog, f, ctx.typer)
     F = _e(f"{f.params[0]}.{field}")
+    fbody = _eafp_lookup(f.body, F)
 
     def midnight_of(x, name):
         d = U.midnight_arg(x)
@@ -2766,7 +2816,7 @@ def _direct(ctx, o, field):
     good = True
     for member in (True, False):
         ev = _MemberEv(F, member)
-        r = run_block(f.body, ev, ex)
+        r = run_block(fbody, ev, ex)
         if r.kind in ('unknown', 'wouldraise'):
             o.undecided(f, r.stmt, r.stmt, f"DirectCalendar.get_available_units: {r.why}")
             return
